@@ -466,6 +466,79 @@ func (x *planExec) checkC09(op *Op, res *OpResult, method string) {
 	}
 }
 
+// leavesUnder collects the numeric leaves of tree that lie below a map key equal to id, each with
+// a signature made of the list indices on its whole path and the (lower-cased) keys below id.
+func leavesUnder(tree interface{}, id string) map[string][]float64 {
+	out := map[string][]float64{}
+	var walk func(v interface{}, idx string, below bool, sub string)
+	walk = func(v interface{}, idx string, below bool, sub string) {
+		switch x := v.(type) {
+		case map[string]interface{}:
+			for _, k := range sortedKeys(x) {
+				switch {
+				case below:
+					walk(x[k], idx, true, sub+"."+strings.ToLower(k))
+				case k == id:
+					walk(x[k], idx, true, "")
+				default:
+					walk(x[k], idx, false, "")
+				}
+			}
+		case []interface{}:
+			for i, e := range x {
+				walk(e, idx+fmt.Sprintf("[%d]", i), below, sub)
+			}
+		case float64:
+			if below {
+				out[idx+sub] = append(out[idx+sub], x)
+			}
+		}
+	}
+	walk(tree, "", false, "")
+	return out
+}
+
+// paramsFidelity: the method parameters a bias reports for a criterion it added must be what the
+// next stage received for that criterion (same value at the same level index / sub-field). It only
+// speaks where the next stage's parameters are keyed by the criterion id at all.
+func paramsFidelity(id string, reported json.RawMessage, next *StateSnap) string {
+	if len(reported) == 0 || next == nil || next.ParamsTree == nil {
+		return ""
+	}
+	var r interface{}
+	if json.Unmarshal(reported, &r) != nil {
+		return ""
+	}
+	rep := leavesUnder(r, id)
+	got := leavesUnder(next.ParamsTree, id)
+	if len(rep) == 0 || len(got) == 0 {
+		return ""
+	}
+	var sigs []string
+	for sig := range rep {
+		sigs = append(sigs, sig)
+	}
+	sort.Strings(sigs)
+	for _, sig := range sigs {
+		have, ok := got[sig]
+		if !ok {
+			continue // the next stage keeps this parameter in another shape: nothing to compare
+		}
+		for _, v := range rep[sig] {
+			found := false
+			for _, h := range have {
+				if sameFloat(h, v) {
+					found = true
+				}
+			}
+			if !found {
+				return fmt.Sprintf("the bias reports method parameter %v for the added criterion %q at %q, the next stage received %v there", v, id, sig, have)
+			}
+		}
+	}
+	return ""
+}
+
 func reportVsState(kind string, st *BiasStep) string {
 	ri := parseReport(st.ReportJSON)
 	nxt := st.Next
@@ -523,10 +596,14 @@ func reportVsState(kind string, st *BiasStep) string {
 		var ac []struct {
 			Id                 string             `json:"id"`
 			AlternativesValues map[string]float64 `json:"alternativesValues"`
+			MethodParameters   json.RawMessage    `json:"methodParameters"`
 		}
 		_ = json.Unmarshal(ri.raw["addedCriteria"], &ac)
 		for _, r := range ac {
 			if m := valuesMatch(r.Id, r.AlternativesValues); m != "" {
+				return m
+			}
+			if m := paramsFidelity(r.Id, r.MethodParameters, nxt); m != "" {
 				return m
 			}
 		}
@@ -536,18 +613,25 @@ func reportVsState(kind string, st *BiasStep) string {
 			ScaledValues map[string]float64 `json:"scaledValues"`
 		}
 		if json.Unmarshal(ri.raw["newCriterion"], &nc) == nil && nc.Id != "" {
-			return valuesMatch(nc.Id, nc.ScaledValues)
+			if m := valuesMatch(nc.Id, nc.ScaledValues); m != "" {
+				return m
+			}
+			return paramsFidelity(nc.Id, ri.raw["params"], nxt)
 		}
 	case "anchoring-new":
 		var ar struct {
 			AddedCriteria []struct {
 				Id                 string             `json:"id"`
 				AlternativesValues map[string]float64 `json:"alternativesValues"`
+				MethodParameters   json.RawMessage    `json:"methodParameters"`
 			} `json:"addedCriteria"`
 		}
 		_ = json.Unmarshal(ri.raw["applierResult"], &ar)
 		for _, r := range ar.AddedCriteria {
 			if m := valuesMatch(r.Id, r.AlternativesValues); m != "" {
+				return m
+			}
+			if m := paramsFidelity(r.Id, r.MethodParameters, nxt); m != "" {
 				return m
 			}
 		}
